@@ -25,10 +25,10 @@ func init() {
 		"C18.a", "C18.b", "C18.c", "C18.d", "C18.e", "C18.f", "C18.g", "C18.h", "C18.i", "C16.c", "C12.a", "C12.b", "C01.c", "C01.d", "C19.b", "C16.d", "C18.j", "C18.k")
 
 	register(&Rule{ID: "C18.a", Doc: "no reachable crash construct except the guarded invalid-UTF-8 panic", Floor: 4, Run: c18a})
-	register(&Rule{ID: "C18.b", Doc: "loops terminate: progress on every path, no continuation at exhausted input", Floor: 30, Run: c18b})
-	register(&Rule{ID: "C18.c", Doc: "index / slice / nil-map obligations discharged by dominating comparisons or reviewed exemptions", Floor: 60, Run: c18c})
-	register(&Rule{ID: "C18.d", Doc: "errors of repo functions are propagated; failure branches return an error", Floor: 60, Run: c18d})
-	register(&Rule{ID: "C18.e", Doc: "error ranges ordered; error tokens are real tokens", Floor: 60, Run: c18e})
+	register(&Rule{ID: "C18.b", Doc: "loops terminate: progress on every path, no continuation at exhausted input", Floor: 68, Run: c18b})
+	register(&Rule{ID: "C18.c", Doc: "index / slice / nil-map obligations discharged by dominating comparisons or reviewed exemptions", Floor: 109, Run: c18c})
+	register(&Rule{ID: "C18.d", Doc: "errors of repo functions are propagated; failure branches return an error", Floor: 153, Run: c18d})
+	register(&Rule{ID: "C18.e", Doc: "error ranges ordered; error tokens are real tokens", Floor: 251, Run: c18e})
 	register(&Rule{ID: "C18.f", Doc: "lint mode only removes errors", Floor: 9, Run: c18f})
 	register(&Rule{ID: "C18.i", Doc: "token window vocabulary: nextToken shifts the look-ahead by one and reads one new token; each xTokenIs predicate tests the slot it is named after", Floor: 5, Run: c18i})
 	register(&Rule{ID: "C18.h", Doc: "token consumption does not depend on environment or data: successful returns reachable under the same token tests leave the window at the same place", Floor: 1, Run: c18h})
